@@ -56,12 +56,64 @@ fn to_primitive_number(value: &Value) -> Option<f64> {
     }
 }
 
+/// White space and line terminators stripped by JS string-to-number conversion
+fn is_js_whitespace(c: char) -> bool {
+    match c {
+        '\u{0009}' | '\u{000A}' | '\u{000B}' | '\u{000C}' | '\u{000D}' | '\u{0020}'
+        | '\u{00A0}' | '\u{1680}' | '\u{2000}'..='\u{200A}' | '\u{2028}' | '\u{2029}'
+        | '\u{202F}' | '\u{205F}' | '\u{3000}' | '\u{FEFF}' => true,
+        _ => false,
+    }
+}
+
+/// Value of the digits of a `0x` / `0o` / `0b` literal (prefix removed)
+fn radix_digits_to_number(digits: &str, radix: u32) -> Option<f64> {
+    if digits == "" || !digits.chars().all(|c| c.is_digit(radix)) {
+        return None;
+    }
+    u128::from_str_radix(digits, radix)
+        .map(|int| int as f64)
+        .ok()
+        // more than 128 significant bits: accumulate as a float
+        .or_else(|| {
+            digits.chars().fold(Some(0.0), |acc, c| {
+                Some(acc? * (radix as f64) + (c.to_digit(radix)? as f64))
+            })
+        })
+}
+
+/// Convert a string to a number the way JS `Number(string)` does
+///
+/// Surrounding white space is ignored, the empty string is 0, `Infinity` is
+/// only recognized with that exact spelling, and `0x`, `0o` and `0b`
+/// integer literals are honored. Returns None where JS would return NaN.
 pub fn str_to_number<S: AsRef<str>>(string: S) -> Option<f64> {
-    let s = string.as_ref();
+    let s = string.as_ref().trim_matches(is_js_whitespace);
     if s == "" {
-        Some(0.0)
-    } else {
+        return Some(0.0);
+    }
+    match s {
+        "Infinity" | "+Infinity" => return Some(f64::INFINITY),
+        "-Infinity" => return Some(f64::NEG_INFINITY),
+        _ => {}
+    }
+    let mut rest = s.chars();
+    let radix = match (rest.next(), rest.next()) {
+        (Some('0'), Some('x')) | (Some('0'), Some('X')) => Some(16),
+        (Some('0'), Some('o')) | (Some('0'), Some('O')) => Some(8),
+        (Some('0'), Some('b')) | (Some('0'), Some('B')) => Some(2),
+        _ => None,
+    };
+    if let Some(radix) = radix {
+        return radix_digits_to_number(rest.as_str(), radix);
+    }
+    // Rust's float grammar covers the JS decimal forms but additionally
+    // accepts "inf", "infinity" and "nan" in any case, so only hand it
+    // strings made of decimal-literal characters.
+    if s.chars().all(|c| c.is_ascii_digit() || "+-.eE".contains(c)) {
         f64::from_str(s).ok()
+    } else {
+        None
     }
 }
 
